@@ -10,6 +10,8 @@
 #include <unistd.h>
 #include <time.h>
 #include <dlfcn.h>
+#include <elf.h>
+#include <algorithm>
 #include <termios.h>
 #include <fcntl.h>
 #include <algorithm>
@@ -74,12 +76,53 @@ static const uint64_t HANDLE_BASE = 0x51D0000000ULL;
 Hooks &hooks() { return g_hooks; }
 void set_fail_handler(FailHandler h) { g_fail = h; }
 
+// Static functions are not in the dynamic symbol table: fall back to the ELF .symtab of the executable (read once).
+struct ElfSym { uintptr_t addr; size_t size; std::string name; };
+static std::vector<ElfSym> g_elfsyms;
+static bool g_elfsyms_loaded = false;
+static void load_elfsyms(uintptr_t base) {
+	g_elfsyms_loaded = true;
+	FILE *f = fopen("/proc/self/exe", "rb");
+	if (!f) return;
+	std::vector<uint8_t> img;
+	{ uint8_t buf[65536]; size_t n; while ((n = fread(buf, 1, sizeof buf, f)) > 0) img.insert(img.end(), buf, buf + n); }
+	fclose(f);
+	if (img.size() < sizeof(Elf64_Ehdr)) return;
+	const Elf64_Ehdr *eh = (const Elf64_Ehdr *) img.data();
+	if (memcmp(eh->e_ident, ELFMAG, SELFMAG) != 0 || eh->e_shoff == 0 || eh->e_shoff + (size_t) eh->e_shnum * sizeof(Elf64_Shdr) > img.size()) return;
+	const Elf64_Shdr *sh = (const Elf64_Shdr *) (img.data() + eh->e_shoff);
+	bool pie = eh->e_type == ET_DYN;
+	for (int i = 0; i < eh->e_shnum; i++) {
+		if (sh[i].sh_type != SHT_SYMTAB || sh[i].sh_link >= eh->e_shnum) continue;
+		const Elf64_Shdr &st = sh[sh[i].sh_link];
+		if (sh[i].sh_offset + sh[i].sh_size > img.size() || st.sh_offset + st.sh_size > img.size()) continue;
+		const Elf64_Sym *sy = (const Elf64_Sym *) (img.data() + sh[i].sh_offset);
+		size_t n = sh[i].sh_size / sizeof(Elf64_Sym);
+		for (size_t k = 0; k < n; k++) {
+			if (ELF64_ST_TYPE(sy[k].st_info) != STT_FUNC || sy[k].st_value == 0 || sy[k].st_name >= st.sh_size) continue;
+			g_elfsyms.push_back(ElfSym{(uintptr_t) sy[k].st_value + (pie ? base : 0), (size_t) sy[k].st_size, (const char *) (img.data() + st.sh_offset + sy[k].st_name)});
+		}
+	}
+	std::sort(g_elfsyms.begin(), g_elfsyms.end(), [](const ElfSym &a, const ElfSym &b) { return a.addr < b.addr; });
+}
+
 std::string sym(void *addr) {
 	Dl_info di;
 	char buf[256];
-	if (addr && dladdr(addr, &di) && di.dli_sname) {
-		snprintf(buf, sizeof buf, "%s+0x%lx", di.dli_sname, (unsigned long) ((char *) addr - (char *) di.dli_saddr));
-		return buf;
+	if (addr && dladdr(addr, &di)) {
+		if (di.dli_sname) {
+			snprintf(buf, sizeof buf, "%s+0x%lx", di.dli_sname, (unsigned long) ((char *) addr - (char *) di.dli_saddr));
+			return buf;
+		}
+		if (!g_elfsyms_loaded) { Dl_info me; if (dladdr((void *) &load_elfsyms, &me) && me.dli_fbase == di.dli_fbase) load_elfsyms((uintptr_t) di.dli_fbase); }
+		if (!g_elfsyms.empty()) {
+			uintptr_t a = (uintptr_t) addr;
+			auto it = std::upper_bound(g_elfsyms.begin(), g_elfsyms.end(), a, [](uintptr_t v, const ElfSym &e) { return v < e.addr; });
+			if (it != g_elfsyms.begin()) {
+				--it;
+				if (a >= it->addr && a < it->addr + (it->size ? it->size : 1)) { snprintf(buf, sizeof buf, "%s+0x%lx", it->name.c_str(), (unsigned long) (a - it->addr)); return buf; }
+			}
+		}
 	}
 	snprintf(buf, sizeof buf, "%p", addr);
 	return buf;
